@@ -73,6 +73,42 @@ def contains_point_lean():
     return "def contains_point (x y a b p : Int) : Bool :=\n  %s\n" % g.cond(body[0].value, "contains_point")
 
 
+NORMALISED = [("VerifyingKey", "from_string", "string", "string"), ("VerifyingKey", "from_der", "string", "string"),
+              ("SigningKey", "from_string", "string", "string"), ("SigningKey", "from_der", "s", "string")]
+
+
+def normalisation_pins():
+    """the loaders' argument normalisation, pinned: the first statement of each byte-string loader is
+    `<var> = normalise_bytes(<arg>)`, `_compat.normalise_bytes` is `memoryview(buffer_object).cast("B")`, and no loader
+    tests the (unhashable, for writable buffers) memoryview slices with a set / dict / frozenset / hash — the prefix
+    tests are `in (<tuple of bytes>)` or `==`.  Anything else is Unsupported (= broken tie)."""
+    ktree = ast.parse(open(os.path.join(common.SRC, "ecdsa", "keys.py")).read())
+    names = []
+    for cls, fn, var, arg in NORMALISED:
+        f = find_func(ktree, fn, cls=cls)
+        body = [st for st in f.body if not (isinstance(st, ast.Expr) and isinstance(st.value, ast.Constant))]
+        want = "%s = normalise_bytes(%s)" % (var, arg)
+        if not body or ast.unparse(body[0]) != want:
+            raise Unsupported("%s.%s no longer starts with `%s`" % (cls, fn, want))
+        names.append("%s.%s" % (cls, fn))
+    for cls in ("VerifyingKey", "SigningKey"):
+        c = [n for n in ktree.body if isinstance(n, ast.ClassDef) and n.name == cls][0]
+        for fn in [n for n in c.body if isinstance(n, ast.FunctionDef) and (n.name.startswith(("from_", "_from_")))]:
+            for n in ast.walk(fn):
+                if isinstance(n, (ast.Set, ast.SetComp, ast.Dict, ast.DictComp)) or \
+                        (isinstance(n, ast.Call) and isinstance(n.func, ast.Name) and n.func.id in ("set", "frozenset", "hash", "dict")):
+                    raise Unsupported("%s.%s hashes its input (set / dict / hash): memoryviews of writable buffers are unhashable" % (cls, fn.name))
+    ctree = ast.parse(open(os.path.join(common.SRC, "ecdsa", "_compat.py")).read())
+    found = [n for n in ast.walk(ctree) if isinstance(n, ast.FunctionDef) and n.name == "normalise_bytes"]
+    py3 = [n for n in found if "memoryview" in ast.unparse(n)]
+    if len(py3) != 1:
+        raise Unsupported("_compat.normalise_bytes (Python 3 branch) not found")
+    stmts = [st for st in py3[0].body if not (isinstance(st, ast.Expr) and isinstance(st.value, ast.Constant))]
+    if len(stmts) != 1 or ast.unparse(stmts[0]) != "return memoryview(buffer_object).cast('B')":
+        raise Unsupported("_compat.normalise_bytes is no longer `return memoryview(buffer_object).cast(\"B\")`")
+    return names
+
+
 def generate():
     common.import_impl()
     from ecdsa import curves as C, keys as U, ellipticcurve as EC  # the bindings keys.py uses
@@ -120,6 +156,9 @@ def generate():
     out.append("def encoded_oid_ecPublicKey : List UInt8 := %s" % _bytes(U.encoded_oid_ecPublicKey, "encoded_oid_ecPublicKey"))
     out.append("def oid_ecDH : List Nat := %s" % _natlist(U.oid_ecDH, "oid_ecDH"))
     out.append("def oid_ecMQV : List Nat := %s" % _natlist(U.oid_ecMQV, "oid_ecMQV"))
+    out.append("/-- byte-string loaders whose argument normalisation (`normalise_bytes` = `memoryview(..).cast(\"B\")` first, no")
+    out.append("hashing of the buffer) is pinned by the translator -/")
+    out.append("def normalised_loaders : List String := [" + ", ".join('"%s"' % n for n in normalisation_pins()) + "]")
     out.append("\nend Gen\n\nnamespace Gen.Keys\n")
     out.append(contains_point_lean())
     out.append("end Gen.Keys")
